@@ -24,7 +24,11 @@ Definition body_outcome (b : Z) (form : str) (setup : Z) : str * str :=
   let t := [("ok", "3"); ("ok", "5"); ("ok", "0"); ("ok", "a b"); ("ok", ""); ("error", "boom");
             ("error", "invalid command name ""nosuchcmd"""); ("error", "a msg"); ("return", "foo");
             ("break", ""); ("continue", ""); ("return", "x"); ("return", "rboom")]%string in
-  if Z.eqb b 13 then
+  if Z.eqb b 14 then (lit "ok", lit "0")          (* a variable set by an earlier -cleanup is not visible *)
+  else if Z.eqb b 15 then                          (* only this test's own -setup is visible *)
+    if (str_eqb form (lit "fancy") || str_eqb form (lit "fancy2")) && Z.eqb setup 1
+    then (lit "ok", lit "1") else (lit "ok", lit "0")
+  else if Z.eqb b 13 then
     if (str_eqb form (lit "fancy") || str_eqb form (lit "fancy2")) && Z.eqb setup 1
     then (lit "ok", lit "1") else (lit "error", lit "can't read ""sv"": no such variable")
   else
